@@ -6,7 +6,7 @@
    (None only when out of fuel); `expand` repeats each block value over the block's items;
    `mean_sv` = solve SMean is the weighted mean (the model of scipy's isotonic_regression). *)
 From Coq Require Import Permutation.
-From V Require Import lib.Tree model.C15 proofs.C15 proofs.C15_mean proofs.C15_quant proofs.C15_perm.
+From V Require Import lib.Tree model.C15 proofs.C15 proofs.C15_mean proofs.C15_quant proofs.C15_perm proofs.C15_maxmin.
 Open Scope list_scope.
 Open Scope Q_scope.
 
@@ -106,9 +106,14 @@ Theorem C15_band_lower_le_upper : forall (col : list xv) (m conf : Q),
 Proof. exact band_col_ordered. Qed.
 Print Assumptions C15_band_lower_le_upper.
 
-(* STRETCH, NOT PROVED (kept as a comment, see docs/C15.md): the PAV-mean fit equals the max-min of block averages
-     forall l i, nth i (pav mean_sv l) 0 == max_{j<=i} min_{k>=i} wmean (l[j..k]).
-   The executable max-min oracle (model.C15.maxmin_fit) is compared with the implementation on every run instead. *)
+(* ... and equals the max-min of block averages: at position i of the tidied sequence,
+     max over j <= i of min over k >= i of the weighted mean of the observations j..k
+   (seg l j k = items j..k; maxmin_item is the executable oracle the harness compares the implementation with) *)
+Theorem C15_pav_mean_is_maxmin : forall (l : list item) (i : nat), Forall (fun it : item => 0 < snd it) l -> (i < length l)%nat ->
+  nth i (pav mean_sv l) 0 ==
+  lmax (map (fun j => lmin (map (fun k => wmean (seg l j k)) (seq i (length l - i)))) (seq 0 (i + 1))).
+Proof. exact pav_mean_maxmin. Qed.
+Print Assumptions C15_pav_mean_is_maxmin.
 
 (* non-vacuity *)
 Example C15_ex_mean : map Qred (pav mean_sv [(3, 1); (1, 1); (2, 1); (5, 1)]) = [2; 2; 2; 5].
